@@ -442,6 +442,9 @@ def _getput_line_comment(
         if field is None:
             field = 'body'
 
+        elif field == 'orelse' and (orelse := getattr(ast, 'orelse', None)) and (f := orelse[0].f).is_elif():  # the header of an `orelse` which is an `elif` is the header of that `elif` node, anything following on that line is ITS body
+            return f._getput_line_comment(comment, 'body', full)
+
         _, _, end_ln, end_col = self._loc_block_header_end(field)
 
     else:
